@@ -281,7 +281,32 @@ def opt_shared_slot(case):
     return any(v > 1 for v in writes.values())
 
 
+def opt_par_handler_spare(case):
+    """Input-side classifier of handler-slice aliasing seen through C16: tree "par", the undesignated callback options of a call leave
+    spare capacity in the graph-level handler slice (1 -> 2 -> 4 -> 8) and >= 2 parallel nodes have callbacks designated to them."""
+    if case.get("tree") != "par":
+        return False
+    prog = case["prog"]
+
+    def sem(i):
+        st = prog[i - 1]
+        if st["op"] == "new":
+            return st["typ"], []
+        t, ps = sem(st["from"])
+        return t, ps + st["paths"]
+    for call in case["calls"]:
+        opts = [sem(i) for i in call]
+        und = sum(1 for t, ps in opts if t == "cb" and not ps)
+        ln, cap = _chunks_len_cap([1] * und)
+        des = {tuple(p) for t, ps in opts if t == "cb" for p in ps if len(p) == 1}
+        if und > 0 and cap > ln and len(des) >= 2:
+            return True
+    return False
+
+
 def c16_classify(case, reason):
+    if reason in ("callback-fired-for-a-node-it-does-not-address", "designated-callback-did-not-fire") and opt_par_handler_spare(case):
+        return "handler-slice-spare-capacity-shared-by-parallel-nodes"
     if opt_shared_slot(case):
         return "options-derived-from-a-base-with-spare-path-capacity"
     return reason
@@ -304,18 +329,33 @@ def c16(tier, repo=None):
     thorough = tier == "thorough"
     log("[C16] tier=%s seed=%d repo=%s" % (tier, vlib.SEED, repo or vlib.REPO))
     ALLT = ("T1", "T2", "T3", "cb")
+    # parallel designated callbacks over a graph-level handler list built from 0..6 separate WithCallbacks options
+    PAR = dict(tree="par", pu=1, ms=8, mn=6, mp=1, w=1, types=("cb",), nc=1, callmode="final", mins=5)
+    PARBIG = dict(tree="par", pu=2, ms=10, mn=8, mp=1, w=1, types=("cb",), nc=1, callmode="final", mins=6)
+    KIND = dict(pu=2, ms=2, mn=2, mp=2, w=2, types=ALLT, nc=1, mco=2, cw=2)
     # 1. model level
     if thorough:
         fixed = [("std-chain6", dict(pu=1, ms=6, mco=2, cw=6)), ("std-breadth3", dict(pu=2, ms=3, mn=2, mp=2, w=3, types=ALLT, mco=2, cw=3)),
-                 ("deep-chain6", dict(tree="deep", pu=1, ms=6, types=("T1",), cw=3)), ("std-2calls", dict(pu=0, ms=5, nc=2, mco=2, cw=3, types=("T1", "cb")))]
+                 ("deep-chain6", dict(tree="deep", pu=1, ms=6, types=("T1",), cw=3, kind="workflow")),
+                 ("std-2calls", dict(pu=0, ms=5, nc=2, mco=2, cw=3, types=("T1", "cb"))),
+                 ("par-cb8", PAR), ("std-breadth2-chain", dict(kind="chain", **KIND)), ("std-breadth2-workflow", dict(kind="workflow", **KIND))]
     else:
-        fixed = [("std-chain6", dict(pu=0, ms=6, mco=2, cw=3)), ("std-breadth2", dict(pu=2, ms=2, mn=2, mp=2, w=2, types=ALLT, nc=1, mco=2, cw=2))]
+        fixed = [("std-chain6", dict(pu=0, ms=6, mco=2, cw=3)), ("std-breadth2", dict(kind="chain", **KIND)), ("par-cb8", PAR)]
     jobs = [(lambda n=n, kw=kw: cb.opt_model(n, fix=True, workers=2, timeout=1700 if thorough else 170, **kw)) for n, kw in fixed]
+    # seeded variants of the model: the rule must reject them (sanity of rule + model; else inconclusive)
+    jobs.append(lambda: cb.opt_model("par-cb8", fix=True, cbfix=False, workers=1, timeout=170, **PAR))
+    jobs.append(lambda: cb.opt_model("std-breadth2", fix=True, bycomp=True, workers=1, timeout=170, kind="chain", **KIND))
     jobs.append(lambda: cb.opt_model("std-chain6", fix=False, workers=1, timeout=170, pu=0, ms=6, mco=2, cw=3))
-    runs = _par(jobs, 2)
+    runs = _par(jobs, 3)
     states = trans = 0
     model_runs = []
-    for (n, kw), run in zip(fixed, runs[:-1]):
+    for what, vr in (("AppendHandlers appends in place (handler slice aliasing between parallel designated nodes)", runs[-3]),
+                     ("nested graph recognised by component == Graph (Chain / Workflow sub-graphs miss undesignated options)", runs[-2])):
+        if vr.timed_out or vr.error != "invariant:RuleOK":
+            raise Inconclusive("C16 model variant '%s' should violate RuleOK: TLC reported %s\n%s" % (what, vr.error, vr.stdout[-1500:]))
+        model_runs.append({"model": "Options/seeded variant: " + what, "distinct": vr.distinct, "wall_s": round(vr.wall_s, 1),
+                           "result": "RuleOK violated, as it must be"})
+    for (n, kw), run in zip(fixed, runs[:-3]):
         vlib.tlc_must_pass(run, "C16 model (with repair) %s" % n)
         states += run.distinct
         trans += run.generated
@@ -333,17 +373,22 @@ def c16(tier, repo=None):
     S = vlib.SEED
     if thorough:
         gens = [("chain6", dict(pu=1, ms=6, mins=4, mco=2, cw=4), "num=6000", 12000),
-                ("breadth", dict(pu=2, ms=7, mn=2, mp=2, w=3, types=ALLT, nc=1, mco=3, cw=4, mins=2), "num=4000", 8000),
-                ("twocalls", dict(pu=2, ms=7, mn=2, mp=2, w=3, types=ALLT, nc=2, mco=3, cw=5, mins=3), "num=4000", 8000),
-                ("deep", dict(tree="deep", pu=2, ms=6, mn=2, mp=2, w=3, types=ALLT, nc=2, mco=2, cw=4, mins=2), "num=3000", 6000)]
+                ("breadth", dict(pu=2, ms=7, mn=2, mp=2, w=3, types=ALLT, nc=1, mco=3, cw=4, mins=2, kind="chain"), "num=4000", 8000),
+                ("breadth-wf", dict(pu=2, ms=7, mn=2, mp=2, w=3, types=ALLT, nc=1, mco=3, cw=4, mins=2, kind="workflow"), "num=2000", 4000),
+                ("twocalls", dict(pu=2, ms=7, mn=2, mp=2, w=3, types=ALLT, nc=2, mco=3, cw=5, mins=3, kind="workflow"), "num=4000", 8000),
+                ("deep", dict(tree="deep", pu=2, ms=6, mn=2, mp=2, w=3, types=ALLT, nc=2, mco=2, cw=4, mins=2, kind="chain"), "num=3000", 6000),
+                ("par", PAR, None, 4000), ("parbig", PARBIG, "num=3000", 6000)]
     else:
+        # nested graphs: chain6 plain Graph, breadth Chain, twocalls Workflow, deep Chain (nested twice)
         gens = [("chain6", dict(pu=1, ms=6, mins=5, mco=2, cw=3), "num=1000", 2000),
-                ("breadth", dict(pu=2, ms=6, mn=2, mp=2, w=3, types=ALLT, nc=1, mco=3, cw=4, mins=2), "num=400", 800),
-                ("twocalls", dict(pu=2, ms=7, mn=2, mp=2, w=3, types=ALLT, nc=2, mco=3, cw=5, mins=3), "num=400", 800),
-                ("deep", dict(tree="deep", pu=2, ms=6, mn=2, mp=2, w=3, types=ALLT, nc=2, mco=2, cw=4, mins=2), "num=300", 600)]
+                ("breadth", dict(pu=2, ms=6, mn=2, mp=2, w=3, types=ALLT, nc=1, mco=3, cw=4, mins=2, kind="chain"), "num=400", 800),
+                ("twocalls", dict(pu=2, ms=7, mn=2, mp=2, w=3, types=ALLT, nc=2, mco=3, cw=5, mins=3, kind="workflow"), "num=400", 800),
+                ("deep", dict(tree="deep", pu=2, ms=6, mn=2, mp=2, w=3, types=ALLT, nc=2, mco=2, cw=4, mins=2, kind="chain"), "num=300", 600),
+                # three parallel leaves; handlers: 0..6 separate undesignated WithCallbacks options + options designated to p1 / p2; exhaustive
+                ("par", PAR, None, 3300)]
 
     def gen(name, kw, sim, limit):
-        cs, run = cb.opt_generate(name, simulate=sim, depth=25, seed=S, workers=2, timeout=1500 if thorough else 170, **kw)
+        cs, run = cb.opt_generate(name, simulate=sim, depth=25 if sim else None, seed=S if sim else None, workers=2, timeout=1500 if thorough else 170, **kw)
         return name, kw, sim, limit, cs, run
     res = _par([(lambda g=g: gen(*g)) for g in gens], 2)
     cases, fams = [], []
@@ -352,8 +397,8 @@ def c16(tier, repo=None):
         if total > limit:
             rnd.shuffle(cs)
             cs = cs[:limit]
-        fams.append({"family": name, "bounds": kw, "mode": "simulate " + sim, "generated_cases": total, "replayed": len(cs), "wall_s": round(run.wall_s, 1)})
-        log("  cases %s: %d generated (simulate, %.0fs), %d replayed" % (name, total, run.wall_s, len(cs)))
+        fams.append({"family": name, "bounds": kw, "mode": ("simulate " + sim) if sim else "exhaustive", "generated_cases": total, "replayed": len(cs), "wall_s": round(run.wall_s, 1)})
+        log("  cases %s: %d generated (%s, %.0fs), %d replayed" % (name, total, "simulate" if sim else "exhaustive", run.wall_s, len(cs)))
         cases += cs
     for i, c in enumerate(cases):
         c["id"] = "%s-%d" % (c["fam"], i)
